@@ -207,19 +207,33 @@ func GenLookupRef(src, dst string) error {
 	if err != nil {
 		return err
 	}
+	// Every package-level name the file declares is renamed (declaration and uses), so that the copy can sit next to
+	// the assembly build's own declarations whatever else the portable file defines (per-build constants, helpers).
 	found := 0
-	for _, d := range f.Decls {
-		if fd, ok := d.(*ast.FuncDecl); ok {
-			switch fd.Name.Name {
+	top := map[*ast.Object]string{}
+	if f.Scope != nil {
+		for name, obj := range f.Scope.Objects {
+			switch name {
 			case "lookupProjectivePoint":
-				fd.Name.Name = "verifRefLookupProjectivePoint"
+				top[obj] = "verifRefLookupProjectivePoint"
 				found++
 			case "lookupAffinePoint":
-				fd.Name.Name = "verifRefLookupAffinePoint"
+				top[obj] = "verifRefLookupAffinePoint"
 				found++
+			case "init", "_":
+			default:
+				top[obj] = "verifRef_" + name
 			}
 		}
 	}
+	ast.Inspect(f, func(n ast.Node) bool {
+		if id, ok := n.(*ast.Ident); ok && id.Obj != nil {
+			if nn, ok := top[id.Obj]; ok {
+				id.Name = nn
+			}
+		}
+		return true
+	})
 	if found != 2 {
 		return fmt.Errorf("portable lookups not found in %s", src)
 	}
